@@ -11,6 +11,7 @@ import ErgoProofs.Lemmas.ChunkedRead
 import ErgoProofs.Lemmas.ProgramThm
 import ErgoProofs.Lemmas.CodecInst
 import ErgoProofs.Lemmas.ProcBytesThm
+import ErgoProofs.Lemmas.DiskConc
 namespace Ergo
 open Proc
 
@@ -107,5 +108,17 @@ theorem C13_byte_reader_sees_a_past_state (f : Storage.Bytes) (ws : List (List E
   obtain ⟨hreach, _⟩ := ProcB.reach_sim h (ProcB.inv_init f ws nr limit ets es hf hfw hw)
   rw [ProcB.abs_init, ProcB.decode_of_ok hf] at hreach
   exact C13_reader_sees_a_past_state hreach r seen hr
+
+/-- … hence, with ergo's own lock sections as the writers, what a lock-free reader of the **bytes** decoded — under any schedule, with writers dying
+    between their calls — replays and satisfies every invariant: `list`/`show` never work on a state the store was not in, and never on a broken one -/
+theorem C13_byte_reader_state_is_valid (f : Storage.Bytes) (log0 : List Event) (envs : List (Env × Sec)) (nr limit : Nat)
+    (ets : Event → String) (hf : Storage.readEvents Codec.classifyLine limit f = .ok log0) (hfw : Codec.AllWf log0) (h0 : SecReach log0)
+    (hok : ∀ es ∈ envs, SecOK es.1 es.2) (hT : ∀ es ∈ envs, Codec.EnvT es.1)
+    (s : ProcB.BSys) (h : ProcB.BReachableNT (ProcB.BSys.init f (envs.map fun (es : Env × Sec) => secDecide es.1 es.2) nr limit ets) s)
+    (hclock : ∀ (i p : Nat) (snap : List Event) (w : Write) (g : Graph), s.commits[i]? = some (p, snap, w) → replayRaw snap = .ok g →
+               ∀ es : Env × Sec, envs[p]? = some es → EnvOK g es.1)
+    (r : Nat) (seen : List Event) (hr : s.readers[r]? = some (.done seen)) :
+    ∃ g, replay seen = .ok g ∧ AllInv g :=
+  ProcB.conc_disk_reader_valid f log0 envs nr limit ets hf hfw h0 hok hT s h hclock r seen hr
 
 end Ergo
